@@ -44,8 +44,16 @@ type op struct {
 	V  *string `json:"v,omitempty"` // hex; "" is the empty value
 	K2 *string `json:"k2,omitempty"`
 	N  int     `json:"n,omitempty"`
+	// Fault is an injected fault under which the operation is attempted first: "db@i" = the
+	// (i+1)-th NodeDB.GetNode of the operation fails once with a transient error, "ctx@i" = the
+	// context reports cancellation after ctx.Err() has been consulted i times. If the operation
+	// returns the injected error the map must be unchanged (compared by a full iteration) and the
+	// operation is retried without fault; if the fault is not reached the operation just succeeds.
+	Fault string `json:"fault,omitempty"`
 
 	k, v, k2 []byte
+	fk       string // "", "db", "ctx"
+	fat      int
 }
 
 const (
@@ -110,6 +118,7 @@ type witness struct {
 
 type stats struct {
 	ops           map[string]int64
+	faults        map[string]int64
 	nestedCommit  bool
 	reopened      bool
 	refetch       int64
@@ -129,6 +138,7 @@ func main() {
 	run = evid.Start("C03", "exploration")
 	run.Rule = "history i from PRNG(seed,i): configuration (backend nop/badger/pathbadger in-memory; write log on / WithoutWriteLog; cache default, unlimited, fit classes sized from the key universe, tiny = node capacity below 2D+4: (1,1),(2,16); (0,1); overlays through mkvs.NewOverlay or api.Context.NewTransaction) and a list of " +
 		"100 operations over a universe of 6..40 adversarial keys (alphabet {00,01,7f,80,ff,a,b}, lengths 0..6 incl. the empty key, prefix keys) plus probe keys: Insert, Remove, RemoveExisting, Get (top and lower layers), iterator Seek/Rewind/Next, overlay push (depth<=3)/commit/discard/copy, Tree.Commit at the next version, close + NewWithRoot. " +
+		"In the capacity classes default/unlimited/node-only-small about a quarter of Insert/Remove/RemoveExisting/Get and a sixth of the iterations are attempted under an injected transient NodeDB.GetNode error or a context cancelled after i Err() checks first (i from the PRNG); an operation that returns the injected error must leave the map unchanged (full iteration) and is retried. " +
 		"Every returned value is compared with the reference ordered map; after a mutation a full iteration from a random seek key is compared (quick: 1/4 of the mutations). " +
 		"non-trivial = history with an overlay commit at depth >= 2, a close/reopen and at least one node re-fetched after eviction (counted by a GetNode-counting NodeDB wrapper)."
 	run.Assume("reference model: Go map + sorted key slice (engine/mkvslab/model.go); absence is nil, a present empty value is a non-nil empty slice")
@@ -400,6 +410,31 @@ func genHistory(rng *rand.Rand, cfg *config, nOps int) []op {
 			ops = append(ops, mk(opFullIter, anykey(), nil, nil, 0))
 		}
 	}
+	// Fault injection (only in capacity classes outside the known-finding families): about a
+	// quarter of the tree operations are attempted under a transient NodeDB read error or a
+	// context cancelled mid-descent first. PRNG-determined.
+	if cfg.Capacity == "default" || cfg.Capacity == "unlimited" || cfg.Capacity == "fit-nodes-only" {
+		for i := range ops {
+			o := &ops[i]
+			switch o.Op {
+			case opInsert, opRemove, opRemoveExisting, opGet:
+				if rng.IntN(4) == 0 {
+					o.fk = "ctx"
+					if cfg.Backend != lab.BackendNop && rng.IntN(5) < 3 {
+						o.fk = "db"
+					}
+					o.fat = rng.IntN(7)
+				}
+			case opIter, opIterRewind, opFullIter:
+				if cfg.Backend != lab.BackendNop && rng.IntN(6) == 0 {
+					o.fk, o.fat = "db", rng.IntN(7)
+				}
+			}
+			if o.fk != "" {
+				o.Fault = fmt.Sprintf("%s@%d", o.fk, o.fat)
+			}
+		}
+	}
 	sizeFit(cfg, universe, maxValue)
 	return ops
 }
@@ -621,6 +656,86 @@ func execute(cfg *config, ops []op, st *stats) (f *failure) {
 		}
 	}
 
+	fstat := func(name string) {
+		if st != nil {
+			st.faults[name]++
+		}
+	}
+	// changed turns a full-iteration mismatch found right after a failed operation into the
+	// failure "an operation that returned an error changed the map".
+	changed := func(why string, l *layer) *failure {
+		g := iterate(l, nil, true, -1)
+		if g == nil {
+			return nil
+		}
+		g.Sig = "c03/failed-op-changed-contents/" + why
+		g.Raw, g.Coarse = g.Sig, "wrong-answer"
+		g.What = why + " returned the injected fault but changed the map: " + g.What
+		return g
+	}
+	// withFault runs do under the fault of o first (if any); an operation that returns the
+	// injected fault must have left the map unchanged and is retried without fault.
+	withFault := func(o *op, l *layer, do func(ctx context.Context) error) *failure {
+		if o.fk != "" && !(o.fk == "db" && cdb == nil) {
+			ctx := context.Context(bg)
+			if o.fk == "db" {
+				cdb.FailGetNode(o.fat)
+			} else {
+				ctx = lab.NewCountdownCtx(bg, o.fat)
+			}
+			fstat("armed/" + o.fk)
+			e := do(ctx)
+			if cdb != nil {
+				cdb.Disarm()
+			}
+			if e == nil {
+				fstat("not_reached_op_succeeded")
+				return nil
+			}
+			if !lab.IsInjected(e) {
+				return failErr(e)
+			}
+			why := o.Op + "/" + o.fk
+			fstat("failed_ops/" + why)
+			if g := changed(why, l); g != nil {
+				return g
+			}
+			if e = do(bg); e != nil {
+				return failErr(e)
+			}
+			fstat("retried_ok/" + o.Op)
+			return nil
+		}
+		if e := do(bg); e != nil {
+			return failErr(e)
+		}
+		return nil
+	}
+	// iterFault runs an iterator comparison under a NodeDB fault; an iteration that stops with
+	// the injected error must not have changed the map and is repeated without fault.
+	iterFault := func(o *op, l *layer, seek []byte, rewind bool, n int) *failure {
+		if o.fk == "db" && cdb != nil {
+			cdb.FailGetNode(o.fat)
+			fstat("armed/db")
+			g := iterate(l, seek, rewind, n)
+			cdb.Disarm()
+			if g == nil {
+				fstat("not_reached_op_succeeded")
+				return nil
+			}
+			if g.Detail != lab.ErrInjected.Error() {
+				return g
+			}
+			why := "iterate/db"
+			fstat("failed_ops/" + why)
+			if g := changed(why, l); g != nil {
+				return g
+			}
+			fstat("retried_ok/iterate")
+		}
+		return iterate(l, seek, rewind, n)
+	}
+
 	commitTree := func() (hash.Hash, *failure) {
 		if !first {
 			version++
@@ -645,22 +760,22 @@ func execute(cfg *config, ops []op, st *stats) (f *failure) {
 		curOp, curKind = o.Op, l.kind
 		switch o.Op {
 		case opInsert:
-			if err = l.kv.Insert(bg, o.k, o.v); err != nil {
-				return failErr(err)
+			if g := withFault(o, l, func(ctx context.Context) error { return l.kv.Insert(ctx, o.k, o.v) }); g != nil {
+				return g
 			}
 			if len(layers) > 1 && layers[len(layers)-2].model.Has(o.k) && st != nil {
 				st.overlayShadow++
 			}
 			l.model.Insert(o.k, o.v)
 		case opRemove:
-			if err = l.kv.Remove(bg, o.k); err != nil {
-				return failErr(err)
+			if g := withFault(o, l, func(ctx context.Context) error { return l.kv.Remove(ctx, o.k) }); g != nil {
+				return g
 			}
 			l.model.Remove(o.k)
 		case opRemoveExisting:
-			got, rerr := l.kv.RemoveExisting(bg, o.k)
-			if rerr != nil {
-				return failErr(rerr)
+			var got []byte
+			if g := withFault(o, l, func(ctx context.Context) (e error) { got, e = l.kv.RemoveExisting(ctx, o.k); return e }); g != nil {
+				return g
 			}
 			want := l.model.Remove(o.k)
 			if !same(got, want) {
@@ -671,9 +786,9 @@ func execute(cfg *config, ops []op, st *stats) (f *failure) {
 				l = layers[o.N%len(layers)]
 				curKind = l.kind
 			}
-			got, gerr := l.kv.Get(bg, o.k)
-			if gerr != nil {
-				return failErr(gerr)
+			var got []byte
+			if g := withFault(o, l, func(ctx context.Context) (e error) { got, e = l.kv.Get(ctx, o.k); return e }); g != nil {
+				return g
 			}
 			if want := l.model.Get(o.k); !same(got, want) {
 				sym := "get-mismatch"
@@ -683,15 +798,15 @@ func execute(cfg *config, ops []op, st *stats) (f *failure) {
 				return mkfail(sym, fmt.Sprintf("Get(%x)", o.k), show(got), show(want))
 			}
 		case opIter:
-			if g := iterate(l, o.k, false, o.N); g != nil {
+			if g := iterFault(o, l, o.k, false, o.N); g != nil {
 				return g
 			}
 		case opIterRewind:
-			if g := iterate(l, nil, true, o.N); g != nil {
+			if g := iterFault(o, l, nil, true, o.N); g != nil {
 				return g
 			}
 		case opFullIter:
-			if g := iterate(l, o.k, false, -1); g != nil {
+			if g := iterFault(o, l, o.k, false, -1); g != nil {
 				return g
 			}
 			if st != nil {
@@ -855,11 +970,14 @@ func runCase(i int) {
 	ops := genHistory(rng, &cfg, 100)
 	run.Eval(1)
 
-	st := &stats{ops: map[string]int64{}}
+	st := &stats{ops: map[string]int64{}, faults: map[string]int64{}}
 	f := execute(&cfg, ops, st)
 
 	for k, v := range st.ops {
 		run.Count("op/"+k, v)
+	}
+	for k, v := range st.faults {
+		run.Count("fault/"+k, v)
 	}
 	run.Count("iterator_positions_compared", st.iterSteps)
 	run.Count("full_iterations", st.fullIters)
